@@ -19,6 +19,8 @@ DECIDED = ('(a) in the 206 branch Content-Range, Content-Length and the argument
            'is None or a parsed number, and it is compared with the whole-second modification time.')
 DECIDED_MORE = ('Also: every file-delivering answer is dominated by the Range-header test; no naive datetime.timestamp() in parse_date.')
 DECIDED = DECIDED + ' ' + DECIDED_MORE
+DECIDED_R6 = ('Round 6: the header dictionary is an object of this call; no range form under a guard that contradicts it; HeaderDict.append stores on every returning path.')
+DECIDED = DECIDED + ' ' + DECIDED_R6
 NOT_DECIDED = ('RFC 7233 arithmetic for every header string (integer semantics of the parser over all strings, e.g. multiple '
                'ranges, whitespace, huge numbers); equality of delivered bytes with the file slice at run time.')
 ASSUMPTIONS = ['file.read(n) returns at most n bytes', 'email.utils.formatdate emits whole seconds']
